@@ -333,3 +333,18 @@ def fn_match_table(F, fn, adt_path, scrut_name=None):
             raise AnchorMissing('%s: match over %s not decidable for %s (%s)' % (fn, adt_path, v, arm))
         out[short(v)] = (i, arm['body'])
     return out, m
+
+
+def walk_lets(n):
+    """All `let` statements (dicts with k == 'let') in a body, closures included."""
+    out = []
+    stack = [n]
+    while stack:
+        x = stack.pop()
+        if isinstance(x, dict):
+            if x.get('k') == 'let':
+                out.append(x)
+            stack.extend(v for v in x.values() if isinstance(v, (dict, list)))
+        elif isinstance(x, list):
+            stack.extend(x)
+    return out
